@@ -155,6 +155,10 @@ ALL_FILES = ["HED8.0.0.xml", "HED8.1.0.xml", "HED8.2.0.xml", "HED8.3.0.xml", "HE
 PARTNER = {"HED_score_1.1.0.xml": "HED8.2.0.xml", "HED_score_2.0.0.xml": "HED8.3.0.xml",
            "HED_testlib_2.0.0.xml": "HED8.2.0.xml", "HED_testlib_2.1.0.xml": "HED8.2.0.xml",
            "HED_testlib_3.0.0.xml": "HED8.2.0.xml"}
+SIZES = {"HED8.0.0.xml": 316118, "HED8.1.0.xml": 335759, "HED8.2.0.xml": 345995, "HED8.3.0.xml": 594657,
+         "HED_score_1.0.0.xml": 350310, "HED_score_1.1.0.xml": 791720, "HED_score_2.0.0.xml": 959084,
+         "HED_testlib_1.0.2.xml": 316637, "HED_testlib_2.0.0.xml": 351242, "HED_testlib_2.1.0.xml": 350158,
+         "HED_testlib_3.0.0.xml": 349057}
 S1_BLOCK = 280          # run indices per enumerated scenario: kill step 0..139, each plain and torn
 S1_N = {"quick": 280, "thorough": 1680}
 S1_VARIANTS = [(["HED8.2.0.xml", "HED_testlib_2.0.0.xml", "HED_score_1.0.0.xml"], 131072),
@@ -287,6 +291,15 @@ def generate(run_index, seed, tier):
         phases.append({"procs": [_proc(g, "load", version=version_of(f)) for f in g.subset(files, 1, 2)], "gap": 0.0})
     sc["files"] = files
     sc["phases"] = phases
+    # timing assumption (ASSUMPTIONS): a non-faulty population or refresh holds the lock for well under the 1 s lock
+    # timeout.  Estimate its number of steps from the file sizes and the chunk size and cap the per-step duration.
+    unit = max(1, min(sc["chunk"], sc["bufsize"]))
+    est = sum(SIZES[f] // unit + 14 for f in files) + 20
+    cap = round(0.35 / est, 7)
+    for ph in phases:
+        for pr in ph["procs"]:
+            if pr["kind"] in ("populate", "refresh", "load"):
+                pr["dur"] = min(pr["dur"], cap)
     return sc
 
 
@@ -381,20 +394,20 @@ class _Env:
         def enter(lock_self):
             p = sim.current()
             pid = p.pid if p else -1
-            t0 = sim.time()
+            t0 = sim.monotonic()
             s0 = sim.record("cl-enter-call", fs_rel(self.fs, lock_self.cache_folder))
             stamp0 = _read_stamp(lock_self.cache_folder)
             try:
                 r = orig_enter(lock_self)
             except BaseException as e:
                 events.append({"ev": "enter-raised", "pid": pid, "dir": lock_self.cache_folder, "seq": sim.seq,
-                               "t0": t0, "t1": sim.time(), "exc": type(e).__name__, "msg": str(e)[:200], "seq0": s0,
+                               "t0": t0, "t1": sim.monotonic(), "exc": type(e).__name__, "msg": str(e)[:200], "seq0": s0,
                                "stamp0": stamp0, "write_time": lock_self.write_time})
                 sim.record("cl-enter-raised", fs_rel(self.fs, lock_self.cache_folder), type(e).__name__)
                 raise
             s = sim.record("cl-enter-returned", fs_rel(self.fs, lock_self.cache_folder))
             events.append({"ev": "enter-returned", "pid": pid, "dir": lock_self.cache_folder, "seq": s,
-                           "t0": t0, "t1": sim.time(), "obj": id(lock_self), "seq0": s0,
+                           "t0": t0, "t1": sim.monotonic(), "obj": id(lock_self), "seq0": s0,
                            "stamp0": stamp0, "write_time": lock_self.write_time})
             return r
 
@@ -511,7 +524,7 @@ def execute(sc, script=None):
     for n in sc["files"]:
         os.link(os.path.join(W["ref"], n), os.path.join(root, "installed", n))
     decider = Decider(sc["sched_seed"], script)
-    sim = Sim(decider, max_steps=20000)
+    sim = Sim(decider, max_steps=200000)
     fs = SimFS(sim, [root], chunk=sc["chunk"], copy_bufsize=sc["bufsize"], permute_listing=sc["permute"],
                proxy_reads=sc["proxy_reads"])
     lockworld = stubs.LockWorld(sim, rel=lambda p: fs_rel(fs, p))
@@ -546,7 +559,7 @@ def execute(sc, script=None):
                 st = tree_state(cache)
                 states.append(core.digest(sorted((k, v) for k, v in st.items())))
                 _check_quiescent(W, sc, st, violations, pi)
-                sim.now += ph["gap"]
+                sim._advance(ph["gap"])
     finally:
         fs.uninstall()
     _check_history(W, sc, sim, events, procs_meta, violations, probe, lockworld, peer, tree_state(cache))
@@ -673,6 +686,11 @@ def _check_history(W, sc, sim, events, procs_meta, violations, probe, lockworld,
                                 if any(q.pid == h[1] for (pj, _, q) in procs_meta if pj == pi))
             if phase_faulted:
                 probe("load_not_judged_because_of_stall_or_jump")
+                continue
+            if p.state == "failed" and any(ev["ev"] == "enter-raised" and ev["pid"] == p.pid and ev["exc"] == "CacheException"
+                                           and "Could not lock" in ev["msg"] for ev in events):
+                # the lock was held by a live process for longer than the lock timeout: outside the timing assumption
+                probe("load_not_judged_lock_timeout")
                 continue
             if p.state == "failed":
                 e = p.exc
